@@ -182,10 +182,10 @@ type VC struct {
 	splitJoins    bool                 // contract clause `nomerge`: branches of if/switch are not joined until the end of the enclosing block
 	pendingOuts   []*State
 	blockOuts     []*State
-	hintsSeen     map[string]bool      // `at <label>:` hints of the verified function that were reached
-	paramSlices   []paramSlice         // the same, with their element heap (frame facts are instantiated for them)
-	subFuncs      []string             // embedded-struct identity functions declared so far
-	addrTaken     map[*types.Var]bool  // local scalar/slice variables whose address is taken somewhere: boxed at declaration
+	hintsSeen     map[string]bool     // `at <label>:` hints of the verified function that were reached
+	paramSlices   []paramSlice        // the same, with their element heap (frame facts are instantiated for them)
+	subFuncs      []string            // embedded-struct identity functions declared so far
+	addrTaken     map[*types.Var]bool // local scalar/slice variables whose address is taken somewhere: boxed at declaration
 }
 
 // heapStore records how a named heap was obtained from its predecessor.
